@@ -530,12 +530,11 @@ class Parser(object):
 
         # if the components are siblings (either same parent or top-level)
         if _are_siblings(comp_1, comp_2):
-            # they are both connected on their public_interface
-            # Validation makese sure the public_interface are in/out
-            # and if they are equal it would trigger an error at the connection stage (Target already assigned)
-            if variable_1.public_interface == 'out':
+            # they are both connected on their public_interface: one must be 'out' and the other 'in'
+            # (anything else falls through to the error below)
+            if variable_1.public_interface == 'out' and variable_2.public_interface == 'in':
                 return variable_1, variable_2
-            else:
+            elif variable_2.public_interface == 'out' and variable_1.public_interface == 'in':
                 return variable_2, variable_1
         else:
             # determine which component is parent of the other
